@@ -15,6 +15,8 @@ WITNESS = {
            ["AppWrite", 5], ["LsOpen", "same"], ["LsSyncAndWait"]],
     "F2": [["LsOpen", "new"], ["AppWrite", 2], ["AppWrite", 5], ["LsSyncAndWait"], ["LsClose"], ["AppWrite", 3],
            ["AppCheckpoint", "RESTART"], ["AppWrite", 6], ["LsOpen", "new"], ["LsSyncAndWait"]],
+    "G1": [["LsOpen", "new"], ["AppWrite", 2], ["LsSyncAndWait"], ["CkStart", "TRUNCATE"], ["AppWrite", 3], ["CkStep"], ["CkStep"],
+           ["CkStep"], ["CkStep"], ["AppBegin"], ["AppSpill", 1, 1], ["CkStep"], ["AppCommit"], ["AppWrite", 5], ["LsSyncAndWait"]],
     "F3": [["LsOpen", "new"]] + [["AppGrow", 1], ["LsSyncAndWait"]] * 5 + [["LsReset"], ["AppWrite", 3], ["LsSyncAndWait"]],
 }
 
@@ -22,11 +24,11 @@ PLANS = {
     "C01": dict(
         mc=[("MC_Core_q.cfg", "as-is code modulo known findings: pages 3, versions 2, WAL 4, TXIDs 5, gens 4, 1 down, all checkpoint modes, checkpoint sub-steps interleaved with the application")],
         mc_thorough=[("MC_Core_asis.cfg", "same with versions 3"), ("MC_Core_asis4.cfg", "same with versions 4")],
-        sim=[("Sim_Core_run.cfg", 150, 1500, 40)],
-        dump=("Dump_Core.cfg", 400, 6000),
-        random=dict(n=120, n_thorough=1500, length=28, with_down=False, with_state_loss=False),
+        sim=[("Sim_Core_run.cfg", 80, 1200, 40), ("Sim_Core_gated.cfg", 100, 2000, 45)],
+        dump=("Dump_Core.cfg", 250, 6000),
+        random=dict(n=80, n_thorough=1500, length=28, with_down=False, with_state_loss=False),
         invariants=["C01_RestoreEqualsSource", "C01_RestoreIntegrity"],
-        witnesses=["F1", "F2", "F3"],
+        witnesses=["F1", "F2", "F3", "G1"],
         nontrivial="distinct schedule with at least one acknowledgement after application writes (restore compared with the source)",
     ),
     "C04": dict(
@@ -42,7 +44,7 @@ PLANS = {
     "C02": dict(
         mc=[("MC_Core_q.cfg", "NoUncommitted: no page version of an open or rolled-back transaction in any level-0 file; versions 2")],
         mc_thorough=[("MC_Core_asis.cfg", "versions 3"), ("MC_Core_asis4.cfg", "versions 4")],
-        sim=[("Sim_Core_run.cfg", 120, 1200, 40)],
+        sim=[("Sim_Core_run.cfg", 100, 1000, 40), ("Sim_Core_gated.cfg", 80, 1000, 45)],
         dump=None,
         random=dict(n=120, n_thorough=1500, length=30, with_down=False, with_state_loss=False, tx_heavy=True),
         invariants=["C02_EveryTxidIsACommittedState", "C02_Level0Gapless"],
@@ -73,7 +75,7 @@ def build_cases(plan, tier, seed, wd, rep):
         rep.cov["transitions"] += r.generated
         rep.cov.setdefault("sim_runs", []).append({"cfg": cfgname, "behaviours": len(ss), "states_generated": r.generated})
         for s in ss:
-            d = corelib.model_to_driver(s)
+            d = corelib.model_to_driver(s, gated="gated" in cfgname)
             if d:
                 scheds.append(("sim:" + cfgname, d, s))
     if plan.get("dump"):
@@ -155,8 +157,14 @@ def run(prop, argv):
             rep.cov["exhaustive"] = True
             cases = build_cases(plan, tier, seed, wd, rep)
         by_id = {c["id"]: c for c in cases}
+        import time as _t
+        _t0 = _t.time()
+        rep.cov["phase_s"] = {"mc_and_schedules": round(_t0 - rep.t0, 1)}
         out, info = corelib.run_cases(binary, wd, "cases", [{k: c[k] for k in ("id", "cfg", "sched")} for c in cases])
+        rep.cov["phase_s"]["replay_on_real_code"] = round(_t.time() - _t0, 1)
+        _t1 = _t.time()
         events, verdicts, hazards = corelib.judge(rep, wd, out, plan["invariants"], prop)
+        rep.cov["phase_s"]["judge"] = round(_t.time() - _t1, 1)
         rep.cov["traces_validated_against_impl"] = len(events)
         rep.cov["evaluations"] = len(events)
         nontriv = 0
